@@ -12,6 +12,7 @@ import Cog.Drv.SemDrv
 import Cog.Drv.MergeDrv
 import Cog.Drv.EqualsDrv
 import Cog.Drv.ValidateDrv
+import Cog.Drv.ClosedDrv
 open Cog.Drv
 
 def handle (line : String) : String :=
@@ -31,7 +32,13 @@ def handle (line : String) : String :=
   | "c16witness" :: rest => c16witnessLine (" ".intercalate rest)
   | "bstr" :: rest => bstrLine (" ".intercalate rest)
   | "veneer" :: rest => veneerLine (" ".intercalate rest)
+  | "closed" :: rest => closedLine (" ".intercalate rest)
+  | "filter" :: rest => filterLine (" ".intercalate rest)
+  | "reach" :: rest => reachLine (" ".intercalate rest)
+  | "nameops" :: rest => nameopsLine (" ".intercalate rest)
+  | "c05witness" :: rest => c05witnessLine (" ".intercalate rest)
   | "wt" :: rest => wtLine (" ".intercalate rest)
+  | "c17witness" :: rest => c17witnessLine (" ".intercalate rest)
   | _ => "bad-request"
 
 /-- verbs that need the driver's schema store (IO) -/
